@@ -3,11 +3,11 @@ package main
 // C04 — stale, duplicate and concurrent CNI requests are harmless (daemon/daemon.go).
 
 import (
-	"regexp"
 	"fmt"
 	"go/ast"
 	"go/token"
 	"go/types"
+	"regexp"
 	"strings"
 )
 
@@ -118,6 +118,9 @@ func c04(c *Ctx) {
 	c05R4(c)
 	// the record the guards compare with is what was committed: memory follows the disk (shared rule)
 	c05R3(c)
+	c04R6(c)
+	// the recorded sandbox id the guard compares with survives an upgrade (shared rule)
+	c05R9(c)
 }
 
 // pendingField is networkService.pendingPods
@@ -667,4 +670,91 @@ func isPriorRecordTest(fe *FactEngine, cond ast.Expr) bool {
 	}
 	v, isC := constInt(fe.fn.Info(), be.Y)
 	return isC && v == 0
+}
+
+// R6: a DEL that matches the record takes effect. The converse of R3: ReleaseIP
+// acknowledges without deleting the record only for one of the reasons the
+// code has today — the pod object is gone (NotFound), the request names another
+// sandbox than the recorded one, or the pod keeps its address (sticky). Any
+// other early success leaves the address bound and the record behind although
+// the runtime was told the teardown is done.
+func c04R6(c *Ctx) {
+	p := c.P
+	c.Rule("C04.R6", "ReleaseIP acknowledges a DEL without deleting the pod's record only when the pod object is not found, the request's sandbox differs from the recorded one, or the pod is sticky; every other acknowledged DEL passed the release and the delete of the record")
+	fn := p.Func(daemonPkg, "networkService.ReleaseIP")
+	if fn == nil {
+		c.Unres("C04.R6", "networkService.ReleaseIP", "not found")
+		return
+	}
+	info := fn.Info()
+	sig := fn.Obj.Type().(*types.Signature)
+	dels := findCalls(fn, func(call *ast.CallExpr) bool { return isRecordDelete(p, info, call) })
+	if len(dels) == 0 {
+		c.Bad("C04.R6", "ReleaseIP deletes the record", p.Pos(fn.Decl), fn.Key(), "a record delete", "none")
+		return
+	}
+	isDel := func(n ast.Node) bool {
+		for _, d := range dels {
+			if n.Pos() <= d.Pos() && d.End() <= n.End() {
+				return true
+			}
+		}
+		return false
+	}
+	// licences, from the function's own tests
+	var alts []string
+	ast.Inspect(fn.Decl.Body, func(k ast.Node) bool {
+		switch t := k.(type) {
+		case *ast.CallExpr:
+			if lastSeg(calleeName(info, t)) == "IsNotFound" {
+				alts = append(alts, exprString(t))
+			}
+		case *ast.BinaryExpr:
+			if t.Op == token.NEQ {
+				for _, side := range []ast.Expr{t.X, t.Y} {
+					if st, ok := ast.Unparen(side).(*ast.StarExpr); ok {
+						if fv := fieldOf(info, st.X); fv != nil && fv.Name() == "ContainerID" {
+							alts = append(alts, exprString(t))
+						}
+					}
+				}
+			}
+		case *ast.IfStmt:
+			// the condition under which the record is released and deleted (non-sticky)
+			for _, d := range dels {
+				if t.Body.Pos() <= d.Pos() && d.End() <= t.Body.End() && strings.Contains(exprString(t.Cond), "IPStickTime") {
+					alts = append(alts, "!("+exprString(t.Cond)+")")
+				}
+			}
+		}
+		return true
+	})
+	_, _ = sig, isDel
+	// whenever a call ends in success and none of the reasons holds, the delete was reached
+	var delStmt ast.Node
+	for _, nd := range pathTo(fn.Decl.Body, dels[0]) {
+		if st, ok := nd.(ast.Stmt); ok {
+			switch st.(type) {
+			case *ast.AssignStmt, *ast.ExprStmt:
+				delStmt = st
+			}
+		}
+	}
+	if delStmt == nil {
+		c.Undec("C04.R6", "ReleaseIP: the record delete is a statement", p.Pos(dels[0]), fn.Key(), "err = deletePodResource(pod)", "not a simple statement")
+		return
+	}
+	c.RequireReachedF("C04.R6", "ReleaseIP: an acknowledged DEL without a listed reason deleted the record", fn, fn.Decl.Body, dels[0],
+		"none of: "+strings.Join(alts, " | "), func(e *FactEngine) (*Formula, error) {
+			f := fT
+			for _, a := range alts {
+				g, err := e.ParseReq(a, dels[0].Pos())
+				if err != nil {
+					return nil, err
+				}
+				f = mkAnd(f, mkNot(g))
+			}
+			return f, nil
+		})
+	c.Floor("C04.R6", "listed reasons", 3, len(alts))
 }
